@@ -200,6 +200,10 @@ func runC20(r *mon.Run) {
 			// the child died: a fatal runtime error (e.g. concurrent map access) is a violation, anything else inconclusive
 			if strings.Contains(res.logs, "fatal error:") || strings.Contains(res.logs, "concurrent map") {
 				r.Violation("C20/fatal-runtime-error/"+res.run.workload, "concurrent workload died with a fatal runtime error ("+desc+")", map[string]any{"workload": desc, "output": tail(res.logs, 4000)})
+			} else if i := strings.Index(res.logs, "panic:"); i >= 0 && strings.Contains(res.logs[i:], "github.com/privacybydesign/gabi") {
+				// a panic in one of the library's own goroutines (worker pools) cannot be recovered by the child: the workload only
+				// performs operations that succeed sequentially, so the library crashed under concurrent use
+				r.Violation("C20/library-panics-under-concurrency/"+res.run.workload, "concurrent workload died with a panic inside the library ("+desc+"): "+firstLine(res.logs[i:]), map[string]any{"workload": desc, "output": tail(res.logs[i:], 4000)})
 			} else {
 				r.Inconclusive("child for " + desc + " failed: " + res.err.Error() + " " + tail(res.logs, 400))
 			}
@@ -653,7 +657,46 @@ func c20W4(sum *c20Summary, rng *rand.Rand, g, rounds int, viol func(string, str
 			}()
 		}
 		wg.Wait()
+		// one key description (structure object) shared by a prover and several verifiers: the structure is the per-key
+		// statement and only read while proofs are built and checked
+		{
+			pp, qp, n := provableKey(48)
+			s := keyproof.NewValidKeyProofStructure(n, []*big.Int{bi(36), bi(49)})
+			first := s.BuildProof(pp, qp)
+			var wg2 sync.WaitGroup
+			for w := 0; w < 3; w++ {
+				wg2.Add(1)
+				go func(w int) {
+					defer wg2.Done()
+					if w == 0 {
+						p2 := s.BuildProof(pp, qp)
+						if !s.VerifyProof(p2) {
+							viol("C20/concurrent-keyproof-invalid", "a key proof built while the same structure verifies other proofs does not verify")
+						}
+						return
+					}
+					// every verifier has its own copy of the proof (verification writes the component names into the proof it
+					// is given); what is shared is the structure
+					var mine keyproof.ValidKeyProof
+					if jb, err := json.Marshal(first); err != nil || json.Unmarshal(jb, &mine) != nil {
+						return
+					}
+					if !s.VerifyProof(mine) {
+						viol("C20/concurrent-keyproof-invalid", "a valid key proof is rejected while the same structure is used by other goroutines")
+					}
+				}(w)
+			}
+			wg2.Wait()
+			sum.Proofs += 3
+		}
 		sum.Signatures = append(sum.Signatures, fmt.Sprintf("round%d", round))
 		sum.Proofs += g
 	}
+}
+
+func firstLine(s string) string {
+	if i := strings.Index(s, "\n"); i >= 0 {
+		return s[:i]
+	}
+	return s
 }
